@@ -80,8 +80,37 @@ func NewEventSerializer(parentLogger logger.Logger, schema base.LogSchema, confi
 
 // SerializeRecord serializes log records into streams
 func (packer *eventSerializer) SerializeRecord(record *base.LogRecord) base.LogStream {
-	length := packer.encodeRecord(record, packer.buffer)
-	return packer.buffer[:length]
+	buffer := packer.buffer
+	// The preallocated buffer fits any record within the input limits, but header fields are not limited by them:
+	// a record that may not fit is serialized into a buffer of its own rather than overrunning the shared one
+	if maxLength := packer.maxEncodedLength(record); maxLength >= len(buffer) {
+		buffer = make([]byte, maxLength+1)
+	}
+	length := packer.encodeRecord(record, buffer)
+	return buffer[:length]
+}
+
+// maxEncodedLength returns an upper bound of the serialized length of the given record
+func (packer *eventSerializer) maxEncodedLength(record *base.LogRecord) int {
+	const maxHeaderLength = 5 // of msgpack strings, maps and arrays
+	fields := record.Fields[0:len(packer.fieldMasks)]
+	total := 1 + 10 + maxHeaderLength // root array, event time, root map
+	for i, value := range fields {
+		if packer.fieldMasks[i] || len(value) == 0 {
+			continue
+		}
+		total += len(packer.serializedFieldKeys[i]) + maxHeaderLength
+		if headRewriter := packer.fieldRewriters[i]; headRewriter != nil {
+			total += headRewriter.MaxFieldLength(value, record)
+		} else {
+			total += len(value)
+		}
+	}
+	total += maxHeaderLength + len("environment") + maxHeaderLength
+	for i, loc := range packer.envFieldLocators {
+		total += len(packer.serializedEnvFieldKeys[i]) + maxHeaderLength + len(loc.Get(fields))
+	}
+	return total
 }
 
 // encodeRecord encodes the given log record to buffer and returns the end position.
